@@ -49,11 +49,18 @@ def transforms(rng, case, coords, values):
     yield 'translate_int', lattice, coords + t, values, 1.0, 1.0
     t = rng.uniform(-1000, 1000, size=dim)
     yield 'translate_real', False, coords + t, values, 1.0, 1.0
+    # an offset far larger than the extent of the point cloud (projected coordinates): exact on coordinates quantised
+    # to multiples of 2^-6, so every coordinate difference - hence every distance - is bit-identical
+    cq = np.round(coords * 64.0) / 64.0
+    if len(np.unique(cq, axis=0)) == len(np.unique(coords, axis=0)):
+        T = np.array([float(rng.choice([2.0 ** 19, 5.0e5, 2.0 ** 22, 5.4e6, 2.0 ** 24])) for _ in range(dim)])
+        yield 'translate_large', True, cq + T, values, 1.0, 1.0, dict(coords=cq)
     refl = coords.copy()
     refl[:, 0] = -refl[:, 0]
     yield 'reflect', True, refl, values, 1.0, 1.0
     if dim >= 2:
-        yield 'swap_axes', True, coords[:, ::-1].copy(), values, 1.0, 1.0
+        # reversing the axis order re-associates the sum of squares for more than two axes: exact only in 2-D
+        yield 'swap_axes', dim == 2, coords[:, ::-1].copy(), values, 1.0, 1.0
         phi = rng.uniform(0, 2 * math.pi)
         R = np.eye(dim)
         R[0, 0], R[0, 1], R[1, 0], R[1, 1] = math.cos(phi), -math.sin(phi), math.sin(phi), math.cos(phi)
@@ -116,19 +123,20 @@ def check_base(ctx, case):
         (name, exact, nc, nv, escale, xscale) = tr[:6]
         e0, c0, x0 = base0
         if len(tr) > 6:
-            # the relation is checked against a base with the (quantised) values given by the transform
+            # the relation is checked against a base with the (quantised) values / coordinates given by the transform
+            over = tr[6] if isinstance(tr[6], dict) else dict(values=tr[6])
             try:
-                e0, c0, x0, _, _ = observe(dict(case, values=tr[6].tolist(), dtype='float64'))
+                e0, c0, x0, _, _ = observe(dict(case, dtype='float64', **{k: v.tolist() for k, v in over.items()}))
             except (ValueError, AttributeError, RuntimeError) as e:
                 ctx.reject(type(e).__name__)
                 continue
         clustering = binf in ('kmeans', 'ward')
         if clustering and not exact:
             continue
-        if not exact and binf not in SMOOTH_BINNINGS and name.startswith(('rotate', 'translate', 'scale_coords')):
+        if not exact and binf not in SMOOTH_BINNINGS and name.startswith(('rotate', 'translate', 'scale_coords', 'swap_axes')):
             # rule-based bin counts may flip on 1-ulp changes of the data range
             continue
-        if not exact and name in ('translate_int', 'translate_real', 'rotate', 'scale_coords') and \
+        if not exact and name in ('translate_int', 'translate_real', 'rotate', 'scale_coords', 'swap_axes') and \
                 not margin_ok(d0, e0, ml_abs):
             ctx.count('skipped_edge_tie')
             continue
@@ -179,7 +187,7 @@ def check_base(ctx, case):
 
 
 def run(ctx):
-    for k in range(ctx.n(70, 700)):
+    for k in range(ctx.n(70, 1500)):
         case = vario.gen_case(ctx.rng, nmax=32 if ctx.tier == 'quick' else 55, allow_custom=False,
                               metrics=['euclidean'], dims=(2, 2, 3, 1),
                               binnings=['even', 'even', 'even', 'uniform', 'uniform'] + vario.BINNINGS[2:])
